@@ -5,6 +5,7 @@ name (JSON-able); the table below maps names to the actual Python objects."""
 import datetime as dt
 
 from checks import treeops
+from mc import env
 
 D1 = dt.date(2020, 1, 2)
 T1 = dt.time(1, 2, 3)
@@ -130,7 +131,7 @@ def apply_op(pool, op):
             raise ValueError("unknown op %r" % (op,))
         return ("ok", None)
     except Exception as exc:
-        return ("raise", type(exc).__name__)
+        return ("raise", env.exc_label(exc))
 
 
 def _index(p, sym):
